@@ -31,6 +31,10 @@ func c08size(mode string) func(int) int64 {
 }
 
 func (r *c08) obs(res string) string {
+	if blindObs { // second, query-free execution (Stream.Blind): drop the eviction log, ask nothing
+		r.ev = r.ev[:0]
+		return "r=" + res
+	}
 	var present []int
 	for k := 0; k < r.keys; k++ {
 		if r.c.Has(k) {
@@ -322,5 +326,5 @@ func genC08(g *G) {
 }
 
 func init() {
-	register(&Stream{Name: "C08", Gen: genC08, New: func(st *Stats) Runner { return &c08{st: st} }})
+	register(&Stream{Name: "C08", Gen: genC08, Blind: true, New: func(st *Stats) Runner { return &c08{st: st} }})
 }
